@@ -58,7 +58,7 @@ pub fn exh_locate(mut idx: u64, maxlen: usize) -> (usize, u64) {
 }
 
 fn enc_arr<K: BufKind>(p: &[u8]) -> Result<Vec<u8>, OutOfMemory> {
-    encode::<K::B>(p).map(|b| b.to_vec())
+    crate::drive::encode_any::<K::B>(p).map(|b| b.to_vec())
 }
 
 impl Prop for C07 {
@@ -111,6 +111,8 @@ impl Prop for C07 {
         let frame = ref_frame(p);
         // buffer encoder, growable
         let v = encode::<Vec<u8>>(p);
+        let v2 = crate::drive::encode_any::<Vec<u8>>(p);
+        ensure!(v2.as_ref().ok() == Some(&frame), "encode-vec-mismatch", "encode::<Vec<u8>> over an iterator of kind {} ({}) = {:?}, reference frame = {}", crate::drive::iter_flavour(p), hex_short(p, 48), v2.as_ref().map(|b| hex_short(b, 64)), hex_short(&frame, 64));
         ensure!(v.as_ref().ok() == Some(&frame), "encode-vec-mismatch", "encode::<Vec<u8>>({}) = {:?}, reference frame = {}", hex_short(p, 48), v.as_ref().map(|b| hex_short(b, 64)), hex_short(&frame, 64));
         // iterator encoder with step cap
         let mut it = encode_streaming(p);
